@@ -118,7 +118,44 @@ def collect_grammars(tier, seed):
                 out.append((j['text'], [t.decode('latin-1') for t in inputs], True))
             else:
                 out.append((j['text'], inputs, False))
+    # descriptions with bound names, templates and arguments that mention call-site names (the names layer of C05/C06)
+    import envgen
+    n_env = 60 if tier == 'quick' else 500
+    for i in range(n_env):
+        g = envgen.Gen(random.Random(rng.randrange(1 << 30)), shadow=0.0, named=None)
+        P = g.program(n_rules=rng.randrange(1, 4), n_templates=rng.randrange(1, 4), depth=rng.randrange(2, 4))
+        P['ignore'] = False
+        inputs = list(dict.fromkeys(envgen.inputs_from(P, random.Random(rng.randrange(1 << 30)), 10)))[:12]
+        out.append((envgen.grammar_text(P), inputs, False))
     return out
+
+
+# compiled between the first and the second compilation of every description: it defines rules named like the
+# built-in constructors, which must not leak into any later compilation
+POISON = ('start = List\n' + ''.join(f'{n} = "a"\n' for n in (
+    'List', 'Opt', 'Some', 'Seq', 'Choice', 'Sep', 'Left', 'Right', 'Expect', 'ExpectNot', 'Skip', 'Longest', 'Fail', 'Backtrack')))
+
+
+def extends_across_variants(tag):
+    """a child grammar must compile and behave the same whatever variant its parent was produced as"""
+    bad = []
+    n = 0
+    results = {}
+    for vname, kw in (('plain parent', {}), ('include_source parent', {'include_source': True})):
+        pname = f'c11p_{tag}_{len(results)}'
+        try:
+            realrun.compile_grammar(f'grammar {pname}\nstart = [A+, B?]\nA = "a"\nB = "b"\n', **kw)
+            child, _ = realrun.compile_grammar(f'grammar c11c_{tag}_{len(results)} extends {pname}\noverride A = "x" | super.A\n')
+            res = [realrun.run_real_api(child.parse, t, 0, True)[0] for t in ('xa', 'ab', 'xxb', 'b', '')]
+        except Exception as exc:       # noqa: BLE001
+            res = [('X-compile', type(exc).__name__, str(exc)[:80])]
+        n += 5
+        results[vname] = res
+    if results['plain parent'] != results['include_source parent']:
+        bad.append({'key': 'extends-variants', 'sig': 'extends-variants', 'kind': 'spec',
+                    'what': f'a child of a parent compiled without include_source behaves differently from a child of the same parent '
+                            f'compiled with it: {str(results["plain parent"])[:160]} vs {str(results["include_source parent"])[:160]}'})
+    return n, bad
 
 
 def run(tier, seed, lean):
@@ -138,6 +175,8 @@ def run(tier, seed, lean):
             has_start = any(line.lower().startswith(('start ', 'start=', 'class start')) for line in text.split('\n'))
             for vname, vtext, kw in variants_of(text, tag):
                 try:
+                    if vname == 'second-compilation':
+                        realrun.compile_grammar(POISON)
                     mod, _ = realrun.compile_grammar(vtext, **kw)
                 except Exception as exc:       # noqa: BLE001
                     res = [('X-compile', type(exc).__name__)]
@@ -169,6 +208,9 @@ def run(tier, seed, lean):
                                      'gi': gi, 'text': text})
             if len(samples) < 3 and gi % 37 == 0:
                 samples.append({'grammar': text[:200], 'inputs': inputs[:4], 'baseline': [list(b) for b in (base or [])[:4]]})
+        n_ext, bad_ext = extends_across_variants(f'{seed}')
+        evals += n_ext
+        violations += bad_ext
         # one fresh interpreter, isolated from site-packages and from /repo
         with open(os.path.join(tmp, 'runner.py'), 'w') as f:
             f.write(RUNNER)
